@@ -17,7 +17,7 @@ Parts
              (also get_signature_key_version never raises).
   edits      finite enumeration: for N deterministic signed values, at every byte position, every
              substitution and insertion from a 17-byte pool, the deletion and the adjacent transposition
-             (quick N=6, thorough N=16000, ~3300 edits per value: "all single-byte edits of N signed values").
+             (quick N=10, thorough N=16000, ~3300 edits per value: "all single-byte edits of N signed values").
 
 max_age_days is k/64 days so max_age_days*86400 = k*1350 is exact in floating point and "t0 + max_age" is a
 sharp boundary.
@@ -31,9 +31,11 @@ Open findings (see known_findings.d/C23.json, findings_inbox/C23-*.md)
       same root cause, other boundary: digits moved between value and timestamp are accepted when the creation
       time has <= 8 digits (before 1973), where Tornado's "timestamp in future"/leading-zero sanity checks do
       not bite.  Only used when the format is v1, the name is unchanged, the attacked input has 3 fields, the
-      signature field is intact, value'+timestamp' == value+timestamp, and timestamp' is all ASCII digits
-      without a leading zero, not expired and at most 31 days ahead of the decode clock (so a regression of
-      Tornado's existing v1 sanity checks is still reported).
+      signature field is intact, value'+timestamp' == value+timestamp, the creation time is < 1e8, and timestamp'
+      is decimal digits (optionally with the leading '+' that int() tolerates) denoting a DIFFERENT number than
+      the signed timestamp, without a leading zero, not expired and at most 31 days ahead of the decode clock.  So a
+      regression of Tornado's existing v1 sanity checks is still reported, and so is any acceptance of a move that
+      leaves the number unchanged ('YWI+|1300000000' -> 'YWI|+1300000000'), which hinges on the payload decoder only.
   F-C23-v2-non-ascii-name        sig C23.roundtrip.v2_non_ascii_name
       v2 writes the name's length in characters but reads it in bytes, so a value created for a non-ASCII
       name never decodes.  Only used for format v2 with a non-ASCII name and result None in the validity window.
@@ -50,6 +52,12 @@ Sensitivity (quick tier, seed 1, scratch copy of /repo/tornado):
   M8  `if version < min_version` -> `if False`                          caught  C23.below_min_version_not_none
   M9  v2 `except KeyError` (unknown key version) -> `except IndexError` caught  C23.decode_raised (KeyError)
   M10 v1 expiry uses a fixed 31 days instead of max_age_days            caught  C23.expired_not_none
+  M11 both decoders re-add missing '=' padding before b64decode (found by independent mutation testing; originally
+      missed: no v1 value whose base64 ends in '+' met a 1-byte move across the first '|')   caught  C23.modified_not_none
+      at seeds 1,2,3 by the attack part (shrunk to 'AAA|+1000000000|sig') and, in every run, by the edits sweep
+      (value b'ab>' = 'YWI+': transposition at the delimiter -> 'YWI|+1700063352|sig') and by
+      replays/C23/v1-plus-sign-moved-into-timestamp.json.  The exclusion of F-C23-v1-value-timestamp-move does not
+      swallow it: it requires a numerically *changed* timestamp and a creation time < 1e8.
   pre-fix snapshot 59274db (F11 int() ValueError, F12 dict-secret AssertionError): re-found by the generators
   (swap at the first '|'; dict secret + version-less string) and by replays/C23/F11-*.json, F12-*.json.
 """
@@ -57,6 +65,7 @@ import functools
 import hashlib
 import hmac
 import logging
+import re
 
 from hypothesis import strategies as st
 
@@ -109,6 +118,10 @@ value_s = st.one_of(
     st.binary(max_size=30),
     st.sampled_from(["", "hello", "1234", "0", b"\xd7\x6d\xf8", b"\xd7\x6d\xf8\xd7\x6d\xf8", b"abc\xd7\x6d\xf8", b"abc",
                      "a|b|c", "2|1:0|", "value with spaces", b"\x00\xff", "\xe9", b"\xd7\x5d\x35\xdb\x7d\xf9ab"]),
+    # base64 text ending in '+' or '/' (int() tolerates a leading '+', so a moved '+' keeps the timestamp numeric),
+    # a '+ddd' quad at the end, and every padding length
+    st.sampled_from([b"ab>", b"ab?", b">>>", b"\xfb\xef\xbe", b"\xff\xff\xff", b"abc\xfb\x5d\xb7", b"ab>ab>", "ab>", "a", "ab",
+                     b"\xfb", b"ab>a", b"xyzab>", b"\xfb\xef\xbe\xfb\x5d\xb7"]),
 )
 t0_s = st.one_of(
     st.integers(10**9, 2 * 10**9), st.integers(10**9, 2 * 10**9), st.integers(10**9, 2 * 10**9),
@@ -157,6 +170,7 @@ attack_s = st.one_of(
     st.tuples(st.just("swap"), pos_s),
     st.tuples(st.just("shift"), st.integers(0, 11), st.sampled_from([-4, -3, -2, -1, 1, 2, 3, 4])),
     st.tuples(st.just("shift"), st.integers(0, 1), st.sampled_from([-4, -3, -2, -1, 1, 2, 3, 4])),
+    st.tuples(st.just("shift"), st.just(0), st.sampled_from([-1, -1, -1, -4, -2, 1, 4])),  # v1: value|timestamp
     st.tuples(st.just("name_move"), st.integers(1, 4)),
     st.tuples(st.just("name_move_rev"), st.integers(1, 8)),
     st.tuples(st.just("v2_name_move"), st.integers(1, 4)),
@@ -479,6 +493,21 @@ def apply_attack(base, s, attack):
     raise AssertionError(kind)
 
 
+def classify_repartition(base, s, a, labels):
+    """Labels for attacked v1 values that are pure re-partitions of value||timestamp (signature still valid)."""
+    if base["version"] != 1 or a.count(b"|") != 2 or s.count(b"|") != 2:
+        return
+    ov, ots, osig = s.split(b"|")
+    av, ats, asig = a.split(b"|")
+    if asig != osig or av + ats != ov + ots or av == ov:
+        return
+    labels.add("v1_value_ts_repartition")
+    if ats[:1] == b"+" and ats[1:].isdigit():
+        labels.add("v1_plus_sign_moved_into_timestamp")
+        if ats[1:] == ots and int(ots) >= 10**8:
+            labels.add("v1_plus_sign_moved_realistic_timestamp")
+
+
 def judge_attacked(ctx, base, s, a, name2, got, detail, labels):
     """A modified value (or the value under another name) decoded to something: classify and fail."""
     name, version = base["name"], base["version"]
@@ -498,11 +527,16 @@ def judge_attacked(ctx, base, s, a, name2, got, detail, labels):
         if version == 1 and a.count(b"|") == 2 and s.count(b"|") == 2:
             ov, ots, osig = s.split(b"|")
             av, ats, asig = a.split(b"|")
-            # the residual weakness only: the moved timestamp is one Tornado's own v1 sanity checks
-            # (ASCII digits, no leading zero, not more than 31 days in the future, not expired) let through
+            # the open finding, nothing more: a re-partition of value||timestamp whose timestamp field is a
+            # DIFFERENT number than the signed one yet passes Tornado's v1 plausibility checks (decimal digits,
+            # optionally the leading '+' int() tolerates; no leading zero; not expired; <= 31 days ahead), which
+            # only happens for creation times with <= 8 digits.  A move that leaves the number unchanged (a '+'
+            # in front of a realistic timestamp) is NOT in the class: there acceptance would hinge on the payload
+            # decoder alone, and the tree returns None.
             t = detail["t"]
-            if (asig == osig and av + ats == ov + ots and av != ov and ats.isdigit() and ats.isascii()
-                    and not ats.startswith(b"0") and t - base["k"] * 1350 <= int(ats) <= t + 31 * 86400):
+            if (asig == osig and av + ats == ov + ots and av != ov and re.fullmatch(rb"\+?[0-9]+", ats)
+                    and not ats.startswith(b"0") and int(ots) < 10**8 and int(ats) != int(ots)
+                    and t - base["k"] * 1350 <= int(ats) <= t + 31 * 86400):
                 sig = SIG_F13B
                 labels.add("v1_value_timestamp_move_accepted")
         ctx.fail("C23.modified_not_none", detail, sig=sig)
@@ -515,6 +549,8 @@ def attack_once(ctx, base, s, secret, attack, labels, detail, times):
         labels.add("noop_attack")
         return False, False
     labels |= alabels
+    if name2 == base["name"]:
+        classify_repartition(base, s, a, labels)
     forms = [a]
     if attack[0] in ("name_move", "name_move_rev", "v2_name_move", "v2_ts_move", "version"):
         try:
@@ -623,7 +659,7 @@ def run_arbitrary(ctx, case):
 
 # ---------------------------------------------------------------------------------- exhaustive edits
 E_NAMES = ["foo", "a", "session_id", "x|y", "3:foo"]
-E_VALUES = ["hello", "", b"\xd7\x6d\xf8", "a|b", b"\x00\xff\x10", "1234567", "val=ue;", "xy"]
+E_VALUES = ["hello", b"ab>", b"\xd7\x6d\xf8", "", "a|b", b"\x00\xff\x10", "1234567", b"ab?"]  # 'YWI+' / 'YWI/' end in +,/
 E_SECRETS = [("plain", "secret"), ("plain", b"\x01\x02key"), ("dict", [(1, "one"), (2, b"two")], 2), ("dict", [(0, "zero")], 0)]
 EDIT_POOL = bytes(BYTE_POOL)
 
@@ -639,7 +675,7 @@ def edit_base(i):
     secret = E_SECRETS[i % 4]
     version = 2 if secret[0] == "dict" or (i // 4) % 2 else 1
     name = E_NAMES[(i // 8) % len(E_NAMES)]
-    value = E_VALUES[(i // 40) % len(E_VALUES)]
+    value = E_VALUES[(i // 8) % len(E_VALUES)]  # gcd(5 names, 8 values) = 1: all 40 pairs occur
     if i >= 320:  # beyond one full cycle: make the payloads distinct
         tag = b"%d" % i
         value = (value.encode("utf-8") if isinstance(value, str) else value) + hashlib.sha256(tag).digest()[: i % 9]
@@ -686,4 +722,4 @@ def main(ctx):
     ctx.explore(roundtrip_s, run_roundtrip, ctx.n(600, 60000), name="roundtrip")
     ctx.explore(attack_case_s, run_attack, ctx.n(2500, 400000), name="attack")
     ctx.explore(arbitrary_s, run_arbitrary, ctx.n(1500, 200000), name="arbitrary")
-    ctx.enumerate(edit_cases(16000 if ctx.thorough else 6), run_edits, name="edits")
+    ctx.enumerate(edit_cases(16000 if ctx.thorough else 10), run_edits, name="edits")
